@@ -351,6 +351,16 @@ def cliquevector_cases(acc, dom, k):
         got = vp.log()
         for cl in fam:
             cmp_tables(got[cl], set(cl), {a: math.log(v) for a, v in table(vp[cl]).items()}, 'CliqueVector log at %r' % (cl,), fails, 1e-12)
+        # same keys, but the factors of the second vector are stored with their axes reversed (as after transpose/project)
+        v2t = CliqueVector({cl: v2[cl].transpose(tuple(reversed(v2[cl].domain.attrs))) for cl in fam})
+        for name, got, fn in [('+t', v1 + v2t, lambda a, b: a + b), ('-t', v1 - v2t, lambda a, b: a - b)]:
+            for cl in fam:
+                cmp_tables(got[cl], set(cl), {a: fn(T1[cl][a], T2[cl][a]) for a in T1[cl]}, 'CliqueVector %s at %r' % (name, cl), fails, 1e-12)
+        edt = sum(T1[cl][a] * T2[cl][a] for cl in fam for a in T1[cl])
+        for name, dv in [('dot(transposed other)', v1.dot(v2t)), ('transposed.dot(other)', v2t.dot(v1))]:
+            if not same(float(dv), edt, 1e-12):
+                fails.append('CliqueVector %s: %r expected %r (factors must be paired by attribute name)' % (name, dv, edt))
+        acc.evals += 4
         d = v1.dot(v2)
         ed = sum(T1[cl][a] * T2[cl][a] for cl in fam for a in T1[cl])
         if not same(float(d), ed, 1e-12):
